@@ -151,7 +151,7 @@ PROPS = {
     },
     "C08": {
         "title": "Reachability operations return exactly the least fixed point",
-        "rules": [on_program(rules_dispatch.rule_dispatch), rules_ftype.rule_mix_image, on_program(rules_sibling.rule_image_fire), on_program(rules_dispatch.rule_split_complete), on_program(rules_sibling.rule_graph_diagonals),
+        "rules": [on_program(rules_level.rule_diag_fold_total), on_program(rules_dispatch.rule_dispatch), rules_ftype.rule_mix_image, on_program(rules_sibling.rule_image_fire), on_program(rules_dispatch.rule_split_complete), on_program(rules_sibling.rule_graph_diagonals),
                   on_program(rules_ct.rule_key_level_flag), on_program(rules_level.rule_position_kind), on_program(rules_level.rule_chain_args), on_program(rules_level.rule_compare_after_store), on_program(rules_ct.rule_state_in_key), on_program(rules_sibling.rule_policy_reachability),
                   on_program(rules_level.rule_skip_rule_consulted), on_program(rules_level.rule_diagonal_lift), on_program(rules_level.rule_saturation_provenance_monolithic)],
         "explanation": STRUCTURAL + ". C08: one clause — the traditional (frontier / no frontier), saturation and one-step image factories select the same accumulate operator per forest kind "
@@ -188,7 +188,7 @@ PROPS = {
     "C12": {
         "title": "Results do not depend on storage, memory-manager or deletion policy",
         "rules": [on_program(rules_storage.rule_chunkptr), on_program(rules_storage.rule_layout), callers_for("C12"), on_program(rules_canon.rule_hash),
-                  on_program(rules_sibling.rule_small_hole_threshold), on_program(rules_storage.rule_threshold_first), on_program(rules_sibling.rule_large_hole_threshold), on_program(rules_storage.rule_singleton_scan), on_program(rules_storage.rule_coalesce)],
+                  on_program(rules_sibling.rule_small_hole_threshold), on_program(rules_storage.rule_threshold_first), on_program(rules_sibling.rule_large_hole_threshold), on_program(rules_storage.rule_singleton_scan), on_program(rules_storage.rule_coalesce), on_program(rules_storage.rule_link_symmetry)],
         "explanation": STRUCTURAL + ". C12: threshold clauses of the hole managers (the small-hole threshold is the same quantity at every site; the large-hole threshold is raised before the holes are re-classified against it), stale-chunk-pointer clause (a pointer from getChunkAddress is not used after a call that can reach requestChunk — a bug of exactly that shape shows under the reallocating managers and not under malloc style) "
                        "and layout clause (full-only, sparse-only and either-form writers and readers of a packed node agree on the region bases and on the hash recipe, so the storage flag cannot change what is read back). Round 8: the coalescing protocol of the hole managers, including that the heap manager's current hole follows a merged hole (seed C12d).",
         "assumptions": ["the relational statement itself (same results under every policy combination) is a hyper-property over configurations and is not decided",
@@ -274,7 +274,7 @@ PROPS = {
     },
     "C20": {
         "title": "Saturation over a partitioned relation equals reachability over its union",
-        "rules": [rules_ftype.rule_mix_satur_events, on_program(rules_level.rule_position_kind), on_program(rules_guard.rule_flags_binding), rules_orphan.rule_event_level, on_program(rules_level.rule_identity_needs_rule), on_program(rules_level.rule_saturation_provenance)],
+        "rules": [on_program(rules_level.rule_diag_fold_total), rules_ftype.rule_mix_satur_events, on_program(rules_level.rule_position_kind), on_program(rules_guard.rule_flags_binding), rules_orphan.rule_event_level, on_program(rules_level.rule_identity_needs_rule), on_program(rules_level.rule_saturation_provenance)],
         "explanation": STRUCTURAL + ". C20: cross-forest clause only — in saturation by events / by levels (sat_pregen.cc: saturate, saturateHelper and recFire of the forward and backward variants) and in the relation splitter and event bookkeeping (sat_relations.cc: splitMxd, findConfirmedStates, …) "
                        "every node handle is used only with the forest it belongs to (state-set forest, relation forest, result forest), on every path; and the position / value clause: where these functions walk a sparsely unpacked relation node, the position z and the value index(z) are kept apart (the identity pattern for a tested-but-unchanged variable is built for the value); and the overload clause: a storage-flag constant binds to a storage-flag parameter in the overload clang resolved (defect D18 in the relation splitter). Rounds 6-7: every identity expansion of a skipped relation level is governed by the forest's reduction rule or the relation class narrows its forest (3 known findings); the start level and the level of every created-then-saturated node derive from parameters or the domain's top level, never from an operand node (seed C20b; 1 known finding).",
         "assumptions": ["that the fixed point computed equals reachability under the union of the events is algorithmic semantics and is not decided", "the ownership engine is not armed in these files (they use the older compute-table idioms it does not model)",
@@ -286,10 +286,11 @@ PROPS = {
     },
     "C18": {
         "title": "Memory managers never hand out overlapping or corrupted chunks",
-        "rules": [on_program(rules_storage.rule_coalesce), on_program(rules_storage.rule_serve), on_program(rules_storage.rule_threshold_first), on_program(rules_sibling.rule_small_hole_threshold), on_program(rules_sibling.rule_large_hole_threshold)],
+        "rules": [on_program(rules_storage.rule_coalesce), on_program(rules_storage.rule_serve), on_program(rules_storage.rule_threshold_first), on_program(rules_sibling.rule_small_hole_threshold), on_program(rules_sibling.rule_large_hole_threshold), on_program(rules_storage.rule_link_symmetry)],
         "explanation": STRUCTURAL + ". C18: hole-bookkeeping clauses of the three hole-based managers (array+grid, original grid, heap). Coalescing protocol of recycleChunk: the freed chunk is tagged as a hole before any neighbour is tested; "
                        "a neighbouring hole leaves the manager's tracked set before `numSlots += getHoleSize(neighbour)` (the heap manager's current hole, which is in neither structure, excepted); the grown hole is re-tagged before it is used; and the final hole "
                        "enters the tracked set on every path except the array-end give-back. Serving protocol of requestChunk (grid managers): a returned hole was untracked first (or is fresh array space); a surplus is cut off with clearHole at the request size and then handed to recycleChunk. Classification: the large-hole threshold is raised before holes are re-classified against it, and the small-hole threshold is one quantity at every site. "
+                       "Link symmetry (both grid managers): a function that stores one direction of a chain or column link (Next(a)=b, Up(a)=b) stores the opposite one (Prev(b)=a, Down(b)=a) too — a stale back link makes a later unlink rewire the wrong neighbour, and the chain then runs into a chunk that was handed out. "
                        "Each is a necessary condition of 'no overlapping chunk, a chunk at least as large as requested': a neighbour that stays tracked after being absorbed, or a hole classified against a stale threshold, is served without a size check.",
         "assumptions": ["non-overlap and content preservation over arbitrary request/recycle sequences is a heap-shape invariant over run-time addresses and is not decided as such",
                         "the malloc-style and free-list managers have no coalescing and are outside these rules", "the vocabulary of track / untrack functions per manager is a table confirmed by reading (lib/rules_storage.py COALESCE_VOCAB)"],
